@@ -4,7 +4,7 @@ package goldilocks
 //
 //zz: prop=C10 tier=quick backend=bv use=fpuf
 func ZZ_C10_goldilocks_FromBytes() {
-	n := zzLen("inlen", 56, 58)
+	n := zzLen("inlen", zzT(56, 40), zzT(58, 70))
 	in := make([]byte, n)
 	zzFill("in", in)
 	_, _ = FromBytes(in)
@@ -12,7 +12,7 @@ func ZZ_C10_goldilocks_FromBytes() {
 
 //zz: prop=C10 tier=quick backend=bv use=fpuf
 func ZZ_C10_goldilocks_Point_UnmarshalBinary() {
-	n := zzLen("inlen", 56, 58)
+	n := zzLen("inlen", zzT(56, 40), zzT(58, 70))
 	in := make([]byte, n)
 	zzFill("in", in)
 	var P Point
